@@ -129,8 +129,105 @@ def g_seed(s):
     return g_opt(None if s is None else g_z(s))
 
 
+def plain_result(res):
+    """implementation result as comparable plain data"""
+    if res[0] != "ok":
+        return ["exc", res[1]]
+    o = res[1]
+    if hasattr(o, "individuals"):
+        return ["pop", [[evqe.plain_individual(i)["layers"], [float(v).hex() for v in i.parameter_values]] for i in o.individuals]]
+    if hasattr(o, "layers"):
+        return ["ind", evqe.plain_individual(o)["layers"], [float(v).hex() for v in o.parameter_values]]
+    return ["layer", evqe.plain_layer(o)]
+
+
+def rewire(layer):
+    """A layer with the same gate TYPE on every qubit but differently wired controlled rotations (the controls of
+    its first two controlled rotations exchanged), or None if it has fewer than two controlled rotations."""
+    crs = [g for g in layer["gates"] if g[0] == "CR"]
+    if len(crs) < 2:
+        return None
+    (_, t1, c1), (_, t2, c2) = crs[0], crs[1]
+    gates = [list(g) for g in layer["gates"]]
+    gates[t1], gates[c2] = ["CR", t1, c2], ["C", c2, t1]
+    gates[t2], gates[c1] = ["CR", t2, c1], ["C", c1, t2]
+    return {"n": layer["n"], "gates": gates}
+
+
+def context_cases(case):
+    """Other calls with the SAME seed and different other arguments (run between two runs of `case`)."""
+    k, seed = case["kind"], case["seed"]
+    eye = lambda n: {"n": n, "gates": [["I", q] for q in range(n)]}
+    if k == "layer":
+        n, prev = case["n"], case["prev"]
+        alts = [rewire(prev)] if prev is not None and rewire(prev) else []
+        alts += [None if prev is not None else (eye(n) if n >= 1 else None)]
+        return [dict(case, prev=a) for a in alts] + [dict(case, n=n + 1, prev=None)]
+    if k == "individual":
+        return [dict(case, n_layers=case["n_layers"] + 1, randomize=not case["randomize"]), dict(case, n=case["n"] + 1)]
+    if k == "append":
+        ind = case["ind"]
+        last = ind["layers"][-1] if ind["layers"] else None
+        alt = rewire(last) if last else None
+        other = {"n": ind["n"], "layers": [alt or eye(ind["n"])], "values": [0.5] * (3 * n_param_gates(alt) if alt else 0)}
+        return [dict(case, ind=other), dict(case, n_layers=case["n_layers"] + 1)]
+    if k == "population":
+        return [dict(case, n_individuals=case["n_individuals"] + 1), dict(case, n_layers=case["n_layers"] + 1)]
+    return []
+
+
+def history_guard(ctx, case):
+    """A seeded constructor call must not depend on what was called before in the same process: run the case,
+    run other calls with the same seed and different arguments, run the case again - same object, same RNG calls."""
+    try:
+        r1, d1 = run_impl(case)
+        for c in context_cases(case):
+            run_impl(c)
+        r2, d2 = run_impl(case)
+    except Exception:
+        return
+    if plain_result(r1) != plain_result(r2):
+        ctx.violation("oracle", f"{case['kind']}-depends-on-call-history", f"{case['kind']}: the same arguments and seed give a different result after other calls with that seed in the same process: {plain_result(r1)} then {plain_result(r2)}", case)
+    elif d1 != d2:
+        ctx.violation("correspondence", "rng-sequence-depends-on-call-history", f"{case['kind']}: the same arguments and seed draw a different sequence of random decisions after other calls with that seed in the same process ({len(d1)} then {len(d2)} decisions)", case)
+
+
 def do_case(ctx, case, script=None):
-    """Run one case: oracle verdicts go to ctx, the Gallina case literal is returned."""
+    """Run one case (or, for kind 'group', a sequence of calls in this one process): oracle verdicts go to ctx,
+    the Gallina case literal(s) are returned."""
+    if case["kind"] == "group":
+        return do_group_case(ctx, case)
+    g = do_single_case(ctx, case, script)
+    if script is None and case["kind"] in ("layer", "individual", "append", "population") and case.get("seed") is not None:
+        ctx.tally("call-history-guard")
+        history_guard(ctx, case)
+    return g
+
+
+def do_group_case(ctx, case):
+    """Previous layers with the same gate type on every qubit but differently wired controlled rotations; every
+    seed is used on each member consecutively, through random_layer or through add_random_layers.  The whole
+    sequence is one case (it replays in a fresh process); every call is checked like a single case."""
+    ctx.tally(f"group:{case['via']}:n={case['n']}")
+    out = []
+    before = len(ctx.violations)
+    for seed in case["seeds"]:
+        for prev in case["prevs"]:
+            if case["via"] == "layer":
+                sub = {"kind": "layer", "n": case["n"], "prev": prev, "seed": seed}
+            else:
+                sub = {"kind": "append", "ind": {"n": case["n"], "layers": [prev], "values": [0.25] * (3 * n_param_gates(prev))}, "n_layers": case["n_layers"], "randomize": False, "seed": seed}
+            g = do_single_case(ctx, sub, None)
+            if g is not None:
+                out.append(g)
+    for v in ctx.violations[before:]:  # the replay is the whole sequence, not the single call
+        v["what"] = f"in a sequence of calls with equal seeds on previous layers of equal gate-type pattern (via {case['via']}, {len(case['seeds'])} seeds x {len(case['prevs'])} previous layers, one process): " + v["what"] + f" [call: {json.dumps(v['case'], sort_keys=True)[:400]}]"
+        v["case"] = case
+    return out
+
+
+def do_single_case(ctx, case, script=None):
+    """Run one call: oracle verdicts go to ctx, the Gallina case literal is returned."""
     k = case["kind"]
     res, decisions = run_impl(case, script)
     toks = tok_table()
@@ -290,6 +387,28 @@ def all_valid_layers(n):
     return out
 
 
+def wiring_groups(n):
+    """Groups (>= 2 members) of valid layers on n qubits with the same gate type on every qubit."""
+    groups = {}
+    for l in all_valid_layers(n):
+        groups.setdefault(tuple(g[0] for g in l["gates"]), []).append(l)
+    return [g for g in groups.values() if len(g) >= 2]
+
+
+def group_cases(rng, n, n_seeds):
+    out = []
+    for members in wiring_groups(n):
+        for via in ("layer", "append"):
+            seeds = [rng.randrange(2**31) for _ in range(n_seeds)]
+            order = list(members)
+            rng.shuffle(order)
+            c = {"kind": "group", "via": via, "n": n, "prevs": order, "seeds": seeds}
+            if via == "append":
+                c["n_layers"] = rng.choice([1, 2])
+            out.append(c)
+    return out
+
+
 def gen_layer_case(rng, max_n=12):
     n = rng.choice([1, 1, 2, 2, 2, 3, 3, 3, 4, 4, 5, 6, 7, 8, 10, max_n])
     r = rng.random()
@@ -376,7 +495,7 @@ def run(ctx):
     translate.check_link(ctx, "C20")  # regenerate Gallina from /repo's current source; link lemmas coq/link/C20Link.v
     ctx.rule = ("random_layer: n from 1..12 (weight on 1-3) x previous layer none / all identities / all rotations / random valid, seeds random; every (n<=2, previous layer) x 4 seeds; "
                 "random_individual n 1..12 x 1..6 layers; add_random_layers on random valid individuals x 1..4 appended layers; random_population 0..5 individuals; argument edge cases; "
-                "exhaustive decision paths of random_layer through a scripted generator (quick n<=3 with <=2 rejected draws per path, thorough n<=4 with <=3); distinct = distinct (arguments, seed or script); non-trivial = at least one random decision drawn")
+                "exhaustive decision paths of random_layer through a scripted generator (quick n<=3 with <=2 rejected draws per path, thorough n<=4 with <=3); groups of previous layers with equal gate-type pattern and different wiring (n=4, thorough also 5) x equal seeds on every member consecutively in one process, via random_layer and via add_random_layers; every seeded call is run twice with other calls of the same seed in between and must give the same object and the same RNG call sequence; distinct = distinct (arguments, seed or script); non-trivial = at least one random decision drawn")
     if not rnglog.selftest():
         ctx.violation("correspondence", "rnglog-selftest", "the logging Random does not reproduce random.Random on this interpreter (vlib/rnglog.py)")
     cases = []
@@ -397,13 +516,15 @@ def run(ctx):
     for _ in range(ctx.n(150, 2000)):
         cases.append(gen_make_individual_case(ctx.rng))
     cases += list(exhaustive_paths(ctx, max_n=ctx.n(3, 4), max_rejects=ctx.n(2, 3)))
+    for n in ((4,) if ctx.quick else (4, 5)):
+        cases += group_cases(ctx.rng, n, ctx.n(12, 25) if n == 4 else 6)
     ctx.exhaustive = False
     glits, kept = [], []
     for c in cases:
         g = do_case(ctx, c, script=c.get("script"))
         ctx.case(c, nontrivial=True, sample=c if len(ctx.samples) < 4 and c["kind"] != "layer" or len(ctx.samples) < 2 else None)
-        if g is not None:
-            glits.append(g)
+        for gg in ([] if g is None else g if isinstance(g, list) else [g]):
+            glits.append(gg)
             kept.append(c)
     bad = core.model_mismatches("C20", IMPORTS, "check_case", glits, chunk=150)
     for i in bad[:5]:
@@ -426,8 +547,9 @@ def replay(ctx, payload):
     for v in ctx.violations:
         print("oracle:", v["what"])
     print("impl-vs-property:", "FAILS" if ctx.violations else "ok")
-    if g:
-        bad = core.model_mismatches("C20_replay", IMPORTS, "check_case", [g])
-        print("model-vs-impl:", "DIFFER" if bad else "agree")
+    gs = [] if g is None else g if isinstance(g, list) else [g]
+    if gs:
+        bad = core.model_mismatches("C20_replay", IMPORTS, "check_case", gs)
+        print("model-vs-impl:", f"DIFFER (calls {bad[:10]} of {len(gs)})" if bad else "agree")
         if c["kind"] == "append":
-            print("implementation follows:", core.model_show("C20v", IMPORTS, f"append_variant ({g})"))
+            print("implementation follows:", core.model_show("C20v", IMPORTS, f"append_variant ({gs[0]})"))
